@@ -52,6 +52,19 @@ Theorem C12_unmatched_releases_all : forall es f q i, closed (run es) = false ->
 Proof. exact unmatched_releases_all. Qed.
 Print Assumptions C12_unmatched_releases_all.
 
+(* ... and so does an answer for a request whose Receiver no longer exists (future dropped while pending,
+   or send_message failed after registering): sender.send fails and ends the reader loop *)
+Theorem C12_dropped_receiver_stops : forall s f q i, closed s = false -> inq s = IFrame f :: q ->
+  lookup (table s) (hop f) = Some i -> gone s i = true -> closed (step s ReaderStep) = true.
+Proof. exact abandoned_answer_stops_reader. Qed.
+Print Assumptions C12_dropped_receiver_stops.
+
+Theorem C12_dropped_receiver_releases_all : forall es f q i j, closed (run es) = false -> inq (run es) = IFrame f :: q ->
+  lookup (table (run es)) (hop f) = Some i -> gone (run es) i = true ->
+  j < nw (run (es ++ [ReaderStep])) -> ws (run (es ++ [ReaderStep])) j <> WPending.
+Proof. exact abandoned_answer_releases_all. Qed.
+Print Assumptions C12_dropped_receiver_releases_all.
+
 (* completion: if the peer has cut the connection at some point and the reader has drained its input,
    every future handed out - before or after the cut - has completed (any interleaving, any peer) *)
 Theorem C12_completion : forall es, In PeerBad es -> inq (run es) = [] ->
